@@ -15,7 +15,31 @@ def sh(cmd, cwd=None, timeout=3600):
     return r.returncode, (r.stdout + r.stderr)
 
 
+def recheck(name, checks):
+    """re-run the checks against a stored seeded change (after the machinery was strengthened)"""
+    dest = f'/verif/seeded/{name}'
+    meta = json.load(open(f'{dest}/meta.json'))
+    meta.setdefault('history', []).append({'check_results': meta.get('check_results')})
+    meta['check_results'] = {}
+    rc, out = sh(f'git -C /repo apply {dest}/patch.diff')
+    if rc != 0:
+        print('apply failed', out)
+        return
+    try:
+        for c in checks:
+            rc, out = sh(f'python3-vt -m pyvc.check {c} --no-evidence 1', '/verif', timeout=7200)
+            lines = [l for l in out.splitlines() if l.startswith(('VIOLATION', 'UNDECIDED', '  obligation', '  bounded'))]
+            meta['check_results'][c] = {'exit': rc, 'caught': rc == 1, 'lines': [l[:400] for l in lines[:12]]}
+    finally:
+        sh('git -C /repo checkout -- .')
+    json.dump(meta, open(f'{dest}/meta.json', 'w'), indent=1)
+    print(json.dumps(meta['check_results'], indent=1)[:1500])
+    print(sh('git -C /repo status --short')[1])
+
+
 def main():
+    if sys.argv[1] == '--recheck':
+        return recheck(sys.argv[2], sys.argv[3].split(','))
     prop = sys.argv[1]
     name = sys.argv[sys.argv.index('--name') + 1] if '--name' in sys.argv else prop
     checks = sys.argv[sys.argv.index('--checks') + 1].split(',') if '--checks' in sys.argv else [prop]
